@@ -1802,7 +1802,8 @@ class LinearOperator(object):
         logdet_term = pinvk_logdet
         logdet_term = logdet_term + logdet_p
 
-        if inv_quad_term.numel() and reduce_inv_quad:
+        # (without a right-hand side the inv_quad term is a per-batch placeholder: there are no columns to sum over)
+        if inv_quad_rhs is not None and inv_quad_term.numel() and reduce_inv_quad:
             inv_quad_term = inv_quad_term.sum(-1)
         return inv_quad_term, logdet_term
 
